@@ -14,7 +14,7 @@ txt = ["### 7.4 Seeded changes: which checks catch which changes",
        "Fresh sub-agents were given only the text of one property and a scratch worktree of `/repo`",
        "(nothing from `/verif`) and asked for changes that break the property, still compile and pass the",
        "pinned suite, and need something specific to manifest; from the second round on they were also",
-       "told which ideas had been used before. Every change below was confirmed with `tools/seed_eval.sh`",
+       "told which ideas had been used before (three rounds, 2 + 2 + 2 changes per property). Every change below was confirmed with `tools/seed_eval.sh`",
        "in a scratch worktree (patch applies, 140/140 baseline tests pass with it, its demonstration fails",
        "with and passes without it) before it was kept under `/verif/seeded/<name>/` (patch.diff, the",
        "demonstration renamed to `*.go.txt`, README.md, meta.json). The checks were run against each",
@@ -32,6 +32,20 @@ for r in rows:
 txt += ["",
         "Discarded: one C13 seed (DWA identifier copies removed from `sm/dwr.go`) became an equivalent",
         "mutant once `Message.Answer` had been repaired to keep zero identifiers (fix for C16).",
+        "One round-3 seed for C02 was the same change as `C07-E-retry-resumes-at-cumulative-offset`.",
+        "",
+        "Not counted as a violation, and therefore neither kept nor chased: a round-3 seed for C15 that",
+        "suppresses the error report for a message whose *body is cut short by the peer's FIN* (`%w` in",
+        "`readBody` plus an `errors.Is(err, io.ErrUnexpectedEOF)` filter in `conn.serve`). C15 asks for a",
+        "report \"for undecodable input\" and lists \"malformed message\" and \"abrupt disconnect\" as separate",
+        "faults; the check reads a message truncated by a disconnect as the latter (the unchanged code",
+        "itself reports a truncated body but not a truncated header), so it requires the close and the",
+        "isolation there but not a report. Requiring the report would also flag the unchanged tree for",
+        "truncated headers, i.e. demand more than the property states.",
+        "",
+        "Seeds whose sub-agent was given another property than the one its change breaks are filed under",
+        "the property whose clause is broken (`C06-E`, `C07-E`, `C16-G`); the check of the property they",
+        "were written for does not, and need not, see them.",
         ""]
 block = "\n".join(txt)
 p = '/verif/DESIGN.md'
